@@ -9,11 +9,16 @@ import numpy as np
 from dask._task_spec import Alias, List, Task, TaskRef
 from dask_array._expr import ArrayExpr
 from dask_array._utils import meta_from_array
-from dask_array._core_utils import concatenate3 as concatenate_shaped
+from dask_array._core_utils import concatenate3
 from dask_array.slicing._utils import parse_assignment_indices, setitem
 from dask.base import is_dask_collection
-from dask.core import flatten
+from dask.core import flatten, reshapelist
 from dask.utils import cached_cumsum
+
+
+def concatenate_shaped(arrays, shape):
+    """Concatenate a flat list of blocks laid out on the block grid ``shape``."""
+    return concatenate3(reshapelist(shape, arrays))
 
 
 def parse_and_validate_assignment(indices, array_shape, value_shape):
